@@ -1,6 +1,7 @@
 //! Verification harness for al8n/caches-rs: property-based testing and fuzzing engines.
 pub mod alloc;
 pub mod checks;
+pub mod e2;
 pub mod e4;
 pub mod e5;
 pub mod e6;
